@@ -253,7 +253,8 @@ Advance(s) ==
     /\ UNCHANGED <<conf, lat, w, ev, sheap, slog, heap, clock, outbox, plog, dropped, late, ovr>>
 
 \* ---- ParallelSimulation._run_independent: every partition is a plain Simulation.run() ---
-IndepCanPop(p) == heap[p] # {} /\ (EndT = Inf \/ clock[p] <= EndT)
+\* (Simulation.run with an end_time uses the same _execute_until loop head as the windows)
+IndepCanPop(p) == heap[p] # {} /\ (EndT = Inf \/ (IF Overshoot THEN clock[p] <= EndT ELSE MinT(heap[p]) <= EndT))
 TurnI(p) == Interleave \/ \A q \in Parts : q < p => ~IndepCanPop(q)
 IndepGuard(p, i) ==
     /\ phase = "par" /\ sub = "indep" /\ IndepCanPop(p) /\ TurnI(p)
